@@ -20,7 +20,7 @@ var pureLib = map[string]bool{
 	"(net.IP).String": true, "(net/netip.Addr).String": true, "(net/netip.AddrPort).String": true,
 	"net.JoinHostPort": true, "net.SplitHostPort": true,
 	"math/rand.Uint32": true, "math/rand/v2.Uint32": true,
-	"(time.Duration).String": true,
+	"(time.Duration).String": true, "golang.org/x/net/bpf.Assemble": true,
 	"net/netip.ParseAddr": true, "net/netip.MustParseAddr": true, "net.LookupIP": true, "(net.IP).To16": true,
 
 }
@@ -314,6 +314,23 @@ func init() {
 	}
 	reg("github.com/google/gopacket.NewSerializeBuffer", serBuf)
 	reg("github.com/google/gopacket.NewSerializeBufferExpectedSize", serBuf)
+	// sync/atomic counters: a linearizable fetch-and-add on the modelled value (A-JOIN lists atomics as trusted)
+	atomicAdd := func(bits uint) libFn {
+		return func(c *callCtx) Val {
+			ex := c.ex
+			p := c.args[0]
+			cur := ex.load(c.st, p)
+			nv := app("mod", app("+", cur.L[0], c.args[1].L[0]), pow2(bits))
+			nv = ex.name("atomic", nv, sInt)
+			if ex.pure == 0 {
+				ex.store(c.st, p, Val{T: cur.T, L: []string{nv}})
+			}
+			return scalar(types.Typ[types.Uint64], nv)
+		}
+	}
+	reg("(*sync/atomic.Uint32).Add", atomicAdd(32))
+	reg("(*sync/atomic.Uint64).Add", atomicAdd(64))
+	reg("(*sync/atomic.Uint32).Load", func(c *callCtx) Val { return c.ex.load(c.st, c.args[0]) })
 	reg("math.Abs", func(c *callCtx) Val {
 		x := c.args[0].L[0]
 		return scalar(types.Typ[types.Float64], ite(app(">=", x, "0.0"), x, app("-", x)))
